@@ -9,7 +9,9 @@
      wrapped w               the wrapped function: trace [Call], result w (Ok value | Err exception)
      sees_once es ok t       trace-level statement of the property: one Call, every extender of es entered once in
                              that order, exits in reverse, exactly the raising extenders logged once
-     ideal es w              executable form of sees_once (ideal_sees_once below ties the two) *)
+     ideal es w              executable form of sees_once (C20_ideal_sees_once below ties the two)
+   The model follows _CompositeExtender as repaired by /repo commit 50d7ec2; before it, a chained raise-after extender
+   and a raising wrapped function made the composite call the inner function again (former known findings). *)
 From Coq Require Import List Bool ZArith Arith Permutation Sorting.Sorted.
 Import ListNotations.
 Require Import MV.Model.Extender MV.Spec.ExtenderSpec MV.Proofs.ExtenderP.
@@ -44,76 +46,76 @@ Theorem C20_tie_order_matters :
 Proof. exact tie_order_matters_l. Qed.
 Print Assumptions C20_tie_order_matters.
 
-(* FULL STATEMENT of "logged and skipped, nothing lost, nothing repeated" (refuted on the faithful model, see
-   C20_raise_after_double_call_refuted and C20_failing_wrapped_repeated_refuted):
-     forall A h order (w : result A), 2 <= length (matching h order) ->
-       run_wrapped h order (wrapped w) = ideal (chain_order h order) w.
-   PROVED: the same outside the two known-defect domains kf_raise_after (some chained extender raises after calling
-   through) and kf_wrapped_fails (the wrapped function itself raises). *)
-Theorem C20_chain_ideal_partial : forall (A : Type) h order (a : A),
-  2 <= List.length (matching h order) -> kf_raise_after (matching h order) = false ->
-  run_wrapped h order (wrapped (Ok a)) = ideal (chain_order h order) (Ok a).
-Proof. exact (@chain_run_ideal_l). Qed.
-Print Assumptions C20_chain_ideal_partial.
+(* 3. THE PROPERTY FOR ONE WRAPPED CALL, at full strength (code after fix 50d7ec2): for a chain of any length, EVERY
+      assignment of behaviours (pass / raise before / raise after calling through) and EVERY outcome w of the wrapped
+      function (a value or its own exception):
+        - the outcome of the call is exactly w (the value, or the wrapped function's own exception),
+        - the wrapped function runs exactly once,
+        - every extender is entered exactly once, in ascending priority order (the order chain_order),
+        - the returning extenders exit once, in reverse order,
+        - exactly the raising extenders are logged, once (an exception of the wrapped function is nobody's fault). *)
+Theorem C20_chain_sees_once : forall (A : Type) h order (w : result A),
+  2 <= List.length (matching h order) -> NoDup (map eid (matching h order)) ->
+  snd (run_wrapped h order (wrapped w)) = w /\
+  sees_once (chain_order h order) (is_ok w) (fst (run_wrapped h order (wrapped w))).
+Proof. exact (@chain_sees_once_l). Qed.
+Print Assumptions C20_chain_sees_once.
 
-(* the same including get_function_extender's case split (no / one bare / chained extenders) *)
-Theorem C20_run_ideal_partial : forall (A : Type) h order (a : A), kf_raise_after (matching h order) = false ->
-  run_wrapped h order (wrapped (Ok a)) = ideal_run_wrapped h order (Ok a).
+(* the same as an equation with the executable ideal computation (no hypothesis on the ids) *)
+Theorem C20_chain_ideal : forall (A : Type) h order (w : result A),
+  2 <= List.length (matching h order) ->
+  run_wrapped h order (wrapped w) = ideal (chain_order h order) w.
+Proof. exact (@chain_run_ideal_l). Qed.
+Print Assumptions C20_chain_ideal.
+
+(* including get_function_extender's case split (no / one bare / chained extenders) *)
+Theorem C20_run_ideal : forall (A : Type) h order (w : result A),
+  run_wrapped h order (wrapped w) = ideal_run_wrapped h order w.
 Proof. exact (@run_ideal_l). Qed.
-Print Assumptions C20_run_ideal_partial.
+Print Assumptions C20_run_ideal.
+
+(* _CompositeExtender on its own, any number of extenders (0 and 1 included: every one is protected) *)
+Theorem C20_composite_ideal : forall (A : Type) l (w : result A),
+  composite_call l (wrapped w) = ideal (composite_order l) w.
+Proof. exact (@composite_ideal_l). Qed.
+Print Assumptions C20_composite_ideal.
 
 (* the ideal computation satisfies the trace-level property *)
 Theorem C20_ideal_sees_once : forall es ok, NoDup (map eid es) -> sees_once es ok (ideal_trace es ok).
 Proof. exact ideal_sees_once_l. Qed.
 Print Assumptions C20_ideal_sees_once.
 
-(* 3. extenders that raise before calling through are logged and skipped: result unchanged, the wrapped function runs
-      exactly once, every extender of the chain (raising or not) is entered exactly once in priority order, the
-      returning ones exit once in reverse order *)
+(* 4. named consequences.  Extenders that raise before calling through are logged and skipped *)
 Theorem C20_raise_before_skipped : forall (A : Type) h order (a : A),
-  2 <= List.length (matching h order) -> kf_raise_after (matching h order) = false ->
-  NoDup (map eid (matching h order)) ->
+  2 <= List.length (matching h order) -> NoDup (map eid (matching h order)) ->
   snd (run_wrapped h order (wrapped (Ok a))) = Ok a /\
   sees_once (chain_order h order) true (fst (run_wrapped h order (wrapped (Ok a)))).
 Proof. exact (@raise_before_skipped_l). Qed.
 Print Assumptions C20_raise_before_skipped.
 
-(* 4. the wrapped call is never lost: for EVERY assignment of behaviours (pass / raise before / raise after) and every
-      outcome of the wrapped function, a chain returns exactly the wrapped function's outcome, runs it at least once
-      and enters every extender at least once *)
+(* the wrapped call is never lost and never repeated, for every raising subset *)
 Theorem C20_wrapped_call_not_lost : forall (A : Type) h order (w : result A),
   2 <= List.length (matching h order) ->
   snd (run_wrapped h order (wrapped w)) = w /\
-  1 <= calls (fst (run_wrapped h order (wrapped w))) /\
-  forall e, In e (matching h order) -> 1 <= enters (eid e) (fst (run_wrapped h order (wrapped w))).
+  calls (fst (run_wrapped h order (wrapped w))) = 1 /\
+  (NoDup (map eid (matching h order)) ->
+   forall e, In e (matching h order) -> enters (eid e) (fst (run_wrapped h order (wrapped w))) = 1).
 Proof. exact (@wrapped_call_not_lost_l). Qed.
 Print Assumptions C20_wrapped_call_not_lost.
 
-(* 5. how often the faithful composite runs the wrapped function: 2 ^ (number of extenders whose try/except fires after
-      the inner function was entered) — raise-after extenders always, and every non-raise-before extender when the
-      wrapped function itself raises *)
 Theorem C20_call_count : forall (A : Type) h order (w : result A), 2 <= List.length (matching h order) ->
-  calls (fst (run_wrapped h order (wrapped w))) = Nat.pow 2 (List.length (filter (doubles w) (matching h order))).
+  calls (fst (run_wrapped h order (wrapped w))) = 1.
 Proof. exact (@call_count_l). Qed.
 Print Assumptions C20_call_count.
 
-Theorem C20_raise_after_double_call_refuted :
-  kf_raise_after wit_ra = true /\
+(* the two former defect witnesses (raise-after extender in a chain; raising wrapped function under three pass-through
+   extenders) on the model of the repaired code *)
+Theorem C20_former_witnesses :
   run_wrapped HCalc wit_ra (wrapped (Ok 7)) =
-    ([Enter 0; Enter 1; Enter 2; Call; Exit 2; Logged 1; Enter 2; Call; Exit 2; Exit 0], Ok 7) /\
-  calls (fst (run_wrapped HCalc wit_ra (wrapped (Ok 7)))) = 2 /\
-  enters 2 (fst (run_wrapped HCalc wit_ra (wrapped (Ok 7)))) = 2 /\
-  run_wrapped HCalc wit_ra (wrapped (Ok 7)) <> ideal (chain_order HCalc wit_ra) (Ok 7).
-Proof. exact raise_after_double_call_l. Qed.
-Print Assumptions C20_raise_after_double_call_refuted.
-
-Theorem C20_failing_wrapped_repeated_refuted :
-  kf_raise_after wit_fail = false /\ kf_wrapped_fails (@Err nat WrappedExn) = true /\
-  calls (fst (run_wrapped HCalc wit_fail (wrapped (@Err nat WrappedExn)))) = 8 /\
-  snd (run_wrapped HCalc wit_fail (wrapped (@Err nat WrappedExn))) = Err WrappedExn /\
-  run_wrapped HCalc wit_fail (wrapped (@Err nat WrappedExn)) <> ideal (chain_order HCalc wit_fail) (Err WrappedExn).
-Proof. exact failing_wrapped_repeated_l. Qed.
-Print Assumptions C20_failing_wrapped_repeated_refuted.
+    ([Enter 0; Enter 1; Enter 2; Call; Exit 2; Logged 1; Exit 0], Ok 7) /\
+  run_wrapped HCalc wit_fail (wrapped (@Err nat WrappedExn)) = ([Enter 0; Enter 1; Enter 2; Call], Err WrappedExn).
+Proof. exact former_witnesses_l. Qed.
+Print Assumptions C20_former_witnesses.
 
 (* outside the statement (it speaks about chains): ONE matching extender is used bare, without try/except — its
    exception fails the call, and a raise-before extender then loses the wrapped call *)
@@ -127,7 +129,7 @@ Theorem C20_single_raiser_loses_call :
 Proof. exact single_raiser_loses_call_l. Qed.
 Print Assumptions C20_single_raiser_loses_call.
 
-(* 6. every step of a plan of any length (fails c = the wrapped function of call c raises): with pass-through
+(* 5. every step of a plan of any length (fails c = the wrapped function of call c raises): with pass-through
       extenders and no failing wrapped function all wrapped calls of the plan happen, and
       extender e is entered exactly once in call c if it declares c's kind, and not at all otherwise *)
 Theorem C20_all_calls_run : forall order fails cs, (forall e, In e order -> beh e = Pass) ->
@@ -144,6 +146,11 @@ Theorem C20_every_declared_call_seen : forall order fails cs e c t,
 Proof. exact every_declared_call_seen_l. Qed.
 Print Assumptions C20_every_declared_call_seen.
 
+(* plans of any length, any behaviours, any failing call: the run is the ideal run *)
+Theorem C20_plan_ideal : forall order fails cs, run_calls order fails cs = ideal_run_calls order fails cs.
+Proof. exact run_calls_ideal_l. Qed.
+Print Assumptions C20_plan_ideal.
+
 (* non-vacuity: a chain of four with a tie, a raise-before extender and an extender for another hook *)
 Definition ex_set : list extender :=
   [ {| eid := 3; prio := 7; hooks := [HCalc; HVout]; beh := Pass |};
@@ -153,7 +160,6 @@ Definition ex_set : list extender :=
     {| eid := 1; prio := 5; hooks := [HCalc]; beh := Pass |} ].
 Example C20_examples :
   map eid (matching HCalc ex_set) = [3; 0; 2; 1] /\
-  kf_raise_after (matching HCalc ex_set) = false /\
   NoDup (map eid (matching HCalc ex_set)) /\
   map eid (chain_order HCalc ex_set) = [0; 1; 3; 2] /\
   run_wrapped HCalc ex_set (wrapped (Ok 7)) =
